@@ -1669,8 +1669,14 @@ func Exec(run *Run, ar *arena.Arena, va *arena.Vars, g *Globals, sites *SiteTabl
 		x.Dev = entropy.NewDevice(run.Entropy)
 		x.Dev.Cur = func() int {
 			if x.Sch != nil && x.Sch.Active() {
-				if c := x.Sch.Cur(); c < len(x.schedIDs) {
+				c := x.Sch.Cur()
+				if c < len(x.schedIDs) {
 					return x.schedIDs[c]
+				}
+				// a goroutine the library started reads on behalf of the caller
+				// that started it
+				if r := x.Sch.Root(c); r >= 0 && r < len(x.schedIDs) {
+					return x.schedIDs[r]
 				}
 				if x.curTask != nil {
 					return x.curTask.id
